@@ -434,7 +434,7 @@ fn clause_for(spec: &ClauseSpec, uids: &[u16]) -> DynClause {
         M::Z0 => ref0::clause(ZeroMock::z0, spec, uids),
         M::GpU8 => opaque::clause_u8(|| GenMMock::gp.with_types::<u8>(), spec, uids),
         M::GpU16 => opaque::clause_u16(|| GenMMock::gp.with_types::<u16>(), spec, uids),
-        other @ (M::LendA | M::LendB | M::LendMut | M::Lent | M::LendClone | M::LendGuard | M::LendVia | M::LendViaMut | M::LendZ | M::OwnSingle | M::OwnMulti
+        other @ (M::StashReq | M::LendA | M::LendB | M::LendMut | M::Lent | M::LendClone | M::LendGuard | M::LendVia | M::LendViaMut | M::LendZ | M::OwnSingle | M::OwnMulti
         | M::OwnOpt | M::OwnRes | M::OwnTup | M::OwnTup1 | M::OwnVec | M::OwnTup3 | M::OwnDeepOpt | M::OwnDeepPoll | M::OwnPollMulti | M::OwnOptMulti | M::OwnUnit | M::TermReport) => {
             panic!("{other:?} is configured through Config::specials")
         }
@@ -448,6 +448,8 @@ fn clause_for(spec: &ClauseSpec, uids: &[u16]) -> DynClause {
         M::GmU16 => genm_u16(spec, uids),
         M::GiU8 => opaque::clause_u8(|| GenIMock::gi.with_types::<u8>(), spec, uids),
         M::GiU16 => opaque::clause_u16(|| GenIMock::gi.with_types::<u16>(), spec, uids),
+        M::GnU8 => opaque::clause_u8(|| GenMock::nt.with_types::<u8>(), spec, uids),
+        M::GnU16 => opaque::clause_u8(|| GenMock::nt.with_types::<u16>(), spec, uids),
     }
 }
 
@@ -638,6 +640,10 @@ fn special_clause(sp: &Special) -> DynClause {
                 .answers(&|u, _| u.make_mut(ValA::new(&tl_tracker(), tl_val_id()))),
         ),
         Special::Lent { id } => DynClause::new(LendMock::lent.each_call(matching!(_)).returns(Tracked::new(&tracker, *id))),
+        Special::StashClone => DynClause::new(StashMock::stash_req.each_call(matching!(_)).answers(&|u, _| {
+            stash_put(u.clone());
+            7
+        })),
         Special::LendZ => DynClause::new(LendMock::lend_z.each_call(matching!(_)).answers(&|u, _| u.make_ref(ZTok::new()))),
         Special::LendGuard => DynClause::new(
             LendMock::lend_guard
@@ -684,6 +690,14 @@ fn special_clause(sp: &Special) -> DynClause {
                     Quant::N(n) => DynClause::new(qrv.n_times(real_count(*n))),
                     _ => DynClause::new(qrv.n_times(2)),
                 }
+            }
+        }
+        Special::OwnMultiThen { n, each_call, id, id2 } => {
+            let (v1, v2) = (TrackedC::new(&tracker, *id), TrackedC::new(&tracker, *id2));
+            if *each_call {
+                DynClause::new(OwnMock::own_multi.each_call(matching!(_)).returns(v1).n_times(real_count(*n)).then().returns(v2))
+            } else {
+                DynClause::new(OwnMock::own_multi.some_call(matching!(_)).returns(v1).n_times(real_count(*n)).then().returns(v2))
             }
         }
         Special::OwnOpt { id } => {
